@@ -15,8 +15,18 @@ with open(inp) as fh:
             name = t[1]
         if len(t) >= 2 and t[0].upper() == "STEPS":
             steps = t[1]
+# like the real program: an &EXT_RESTART section makes CP2K start from the restart file named there and IGNORE the
+# COORD_FILE_NAME / &VELOCITY the engine wrote; report both so that the harness can tell where the run started from
+ext_restart, coord = 0, None
+with open(inp) as fh:
+    for line in fh:
+        t = line.split()
+        if t and t[0].upper() == "&EXT_RESTART":
+            ext_restart = 1
+        if len(t) >= 2 and t[0].upper() == "COORD_FILE_NAME":
+            coord = t[1]
 with open("fake_seen.txt", "w") as fh:
-    fh.write(f"name={name} steps={steps}\n")
+    fh.write(f"name={name} steps={steps} ext_restart={ext_restart} coord={coord}\n")
 # the energy file name depends on the project name: move the pre-rendered text there
 import json  # noqa: E402
 with open("fake_plan.json") as fh:
